@@ -528,7 +528,7 @@ func TestC19CommitSplit(t *testing.T) {
 		sp := genSplitTree(t)
 		tr := sp.tr
 		c := &c19Case{tr: tr}
-		nv := rapid.IntRange(5, 8).Draw(t, "voters")
+		nv := rapid.SampledFrom([]int{5, 6, 7, 7, 7, 8, 8}).Draw(t, "voters")
 		unit := rapid.IntRange(0, 9).Draw(t, "unit") < 7
 		names := make([]string, nv)
 		for i := range names {
